@@ -339,6 +339,14 @@ def one_dataset(chk, drv, rng, ytype, ymiss, xmiss, tier, classes, only=None, se
                     same_err = True
                 chk.d(same_err, '%s: raises on the data iff it raises after deleting the incomplete rows' % which,
                       dict(case, error=repr(ex)[:200]))
+                if which in DROP_ALL:       # ... and iff it raises on the complete cases
+                    try:
+                        RUN[which](cc, covs, o)
+                        cc_err = False
+                    except type(ex):
+                        cc_err = True
+                    chk.d(cc_err, '%s: drop-everything estimator = its complete-case result (raises on the data, '
+                          'runs on the complete cases)' % which, dict(case, error=repr(ex)[:200]))
                 chk.discard('%s could not be computed on the generated data (same error after deletion)' % which)
                 continue
             e2, _ = RUN[which](dele, covs, o)
@@ -438,7 +446,7 @@ MAIN = ['IPTW', 'StochasticIPTW', 'TimeFixedGFormula', 'AIPTW', 'TMLE', 'Stochas
 
 
 def run(chk, drv, rng, tier):
-    reps = 1 if tier == 'quick' else 5
+    reps = 1 if tier == 'quick' else 3
     for _ in range(reps):
         for ytype in (('binary', 'normal') if tier == 'quick' else ('binary', 'normal', 'poisson')):
             for ymiss in (None, 'mcar', 'mar'):
